@@ -71,7 +71,10 @@ def make_fault(rng, prog, cls, block):
             args = ["1"] * len(m.params)
             args[rng.randrange(len(args))] = rng.choice(["undefined_zz", "undefined_zz + 1", "<undefined_zz", "(undefined_zz)"])
             return "%s(%s)" % (m.d.name, ", ".join(args)), "last"
-        return rng.choice(["lda undefined_zz", "sta undefined_zz,x", ".word undefined_zz", ".byte <undefined_zz", "jmp undefined_zz", "lda #>undefined_zz"]), "last"
+        return rng.choice(["lda undefined_zz", "sta undefined_zz,x", ".word undefined_zz", ".byte <undefined_zz", "jmp undefined_zz", "lda #>undefined_zz",
+                           # behind an operand that already decides the result
+                           ".byte 0 && undefined_zz", "lda #(1 || undefined_zz)", ".byte (1 == 2) && (undefined_zz > 1)", ".word 5 || undefined_zz",
+                           ".if 0 && undefined_zz { nop }", ".if 1 || undefined_zz { nop }"]), "last"
     if cls == "undefined-macro":
         return "nosuchmacro_zz(1)", "last"
     if cls == "undefined-segment":
@@ -92,6 +95,10 @@ def make_fault(rng, prog, cls, block):
         return rng.choice(["bne * + 300", "beq * - 200", "bcc * + 130", "bpl * - 127"]), "last"
     if cls == "macro-arity":
         macros = [s for s in prog.all_stmts() if s.k == "macrodef"]
+        if pos_cls == "top-level" and not prog.has_segments and rng.random() < 0.4:
+            # a macro that is defined further down than the call with the wrong number of arguments (appended by the caller)
+            n = rng.choice([0, 1, 3, 4])
+            return "late_zz(%s)" % ", ".join(["1"] * n), "last+late-macro"
         if not macros or extra["in_macro"]:
             return None, None
         m = rng.choice(macros)
@@ -142,6 +149,9 @@ def shard(idx, n, seed, tier, params):
         if text is None:
             continue
         pos_cls, body, scope, file, extra = block
+        late_macro = where == "last+late-macro"
+        if late_macro:
+            where = "last"
         if extra["loop_count"] >= 2 and not extra["in_macro"] and where == "last" and "\n" not in text and cls in SEMANTIC and rng.random() < 0.6:
             # directly in a loop body: the fault exists in ONE iteration only (any of them, also not the last one)
             k = rng.randrange(extra["loop_count"])
@@ -161,6 +171,8 @@ def shard(idx, n, seed, tier, params):
             body.insert(i, st)
             if i + 1 < len(body) and body[i + 1].k == "braces" and text.rstrip().endswith(":"):
                 body.insert(i + 1, P.Stmt("instr", scope, mn="nop", form="none", expr=None))
+            if late_macro:
+                prog.files[prog.main].append(P.Stmt("raw", prog.root, text=".macro late_zz(a, b) {\n    lda #a\n    ldx #b\n}"))
         try:
             files, _ = render.render_program(prog)
         except render.SpellError:
